@@ -213,6 +213,47 @@ func c12Unescape(c *Ctx) {
 			}
 		}
 	})
+	// universal form: between two writes into the output buffer the "is it full" test was passed on its not-full edge
+	{
+		isOutStore := func(in ssa.Instruction) bool {
+			st, ok := in.(*ssa.Store)
+			if !ok {
+				return false
+			}
+			ia, ok := st.Addr.(*ssa.IndexAddr)
+			if !ok {
+				return false
+			}
+			_, isSlice := ia.X.Type().Underlying().(*types.Slice)
+			return isSlice
+		}
+		var base ssa.Value
+		notFull := func(from, to *ssa.BasicBlock) bool {
+			for _, fc := range edgeFactsTo(from, to) {
+				op, x, y, ok := cmpFact(fc)
+				if !ok || (op != token.NEQ && op != token.LSS) {
+					continue
+				}
+				for _, side := range []ssa.Value{x, y} {
+					if lc, _ := callOf(side); lc != nil && calleeID(&lc.Call) == "builtin len" && sameValue(lc.Call.Args[0], base) {
+						return true
+					}
+				}
+			}
+			return false
+		}
+		nW := 0
+		eachInstr(f, func(in ssa.Instruction) {
+			if !isOutStore(in) {
+				return
+			}
+			nW++
+			base = in.(*ssa.Store).Addr.(*ssa.IndexAddr).X
+			// search from the store, but do not cross a not-full edge: a second store reached that way was not preceded by the test
+			hit, path := reachFromE(in.Block(), instrIndex(in)+1, isOutStore, nil, notFull)
+			c.check(hit == nil, fmt.Sprintf("unescapeData/full-test-between-writes.%d", nW), c.ipos(in), "after each write the decoder checks whether the output buffer is full before it writes again", "the decoder can write twice into the output buffer without testing whether it is full in between (index out of range in a stage that has no recover)", c.pathStr(path)...)
+		})
+	}
 	c.check(full, "unescapeData/returns-when-full", c.pos(f.Pos()), "the decoder returns as soon as the output buffer is full", "the decoder does not stop when the output buffer is full (index out of range)")
 }
 
